@@ -6,7 +6,7 @@
     in the composition theorems the handler is ANY script and the chain ANY list.
     [repaired] = the code after the two fix: commits, [pinned] = before (D2, D3). *)
 From WM Require Import Base.Prelude Simple.Model Simple.Monitor Simple.Throttle
-  Simple.ThrottleCtx Simple.Proofs Simple.ThrottleProofs Simple.ThrottleCtxProofs Simple.DelayProofs Simple.ComposeProofs.
+  Simple.ThrottleCtx Simple.Proofs Simple.ThrottleProofs Simple.ThrottleCtxProofs Simple.DelayProofs Simple.ComposeProofs Simple.AcceptProofs Simple.Deadline Simple.DeadlineProofs.
 
 (** Timeout: the result is the handler's; during the call ... *)
 Theorem C19_timeout_transparent : forall d (h : handler) w,
@@ -204,7 +204,72 @@ Theorem C19_composes_with_retry_refuted : exists maxr inner s w, forallb is_simp
   /\ w_calls (fst (mw_sem pinned (MRetry maxr) (scripted (map_res (effo inner) s)) w)) = 4%nat.
 Proof. exact composes_with_retry_refuted. Qed.
 
+(** Retry in the MIDDLE of a chain: [outer (Retry (inner h))] makes the attempts of the bare Retry
+    around the handler carrying inner's documented effects, and returns [eff outer] of its kind of
+    result (the layers pushed by outer Timeouts are alive while the loop reads the context) *)
+Theorem C19_composes_with_retry_middle : forall outer maxr inner s w,
+  forallb is_simple outer = true -> forallb is_simple inner = true ->
+  let Y := stack repaired (outer ++ MRetry maxr :: inner) (scripted s) w in
+  let B := mw_sem repaired (MRetry maxr) (scripted (map_res (effo inner) s)) w in
+  w_calls (fst Y) = w_calls (fst B) /\ rkind (snd Y) = eff outer (rkind (snd B)).
+Proof. exact composes_with_retry_middle. Qed.
+Theorem C19_composes_with_retry_middle_same_handler : forall outer maxr inner s w,
+  forallb is_simple outer = true -> forallb is_simple inner = true ->
+  forallb (fun m => negb (changes_result m)) inner = true ->
+  w_calls (fst (stack repaired (outer ++ MRetry maxr :: inner) (scripted s) w))
+  = w_calls (fst (mw_sem repaired (MRetry maxr) (scripted s) w)).
+Proof. exact composes_with_retry_middle_same. Qed.
+
+(** THE tie between the theorems and the check: for EVERY chain (any length, any order, Retry
+    anywhere), every script and every starting message, what the repaired model does is accepted
+    by [accept] — the function checks/c19.py evaluates on what the real middlewares did.  (Chains
+    with a second Retry inside the first are outside the acceptor: it returns true for them.) *)
+Theorem C19_model_accepted : forall mws s w0,
+  let '(tr, r, v) := observe (stack repaired mws (scripted s)) w0 in
+  accept mws s w0 tr r v = true.
+Proof. exact model_accepted. Qed.
+
+(** a deadline visible during the call, over the clock model of Simple/Deadline.v (any delays before
+    each middleware, timers firing late but never early): a handler blocking on Done() under a
+    chain whose Timeouts are all >= dmin observes it no earlier than dmin after the chain was
+    called and no earlier than the visible Deadline(), which itself is >= call time + dmin; with at
+    least one Timeout it does observe it *)
+Theorem C19_deadline_lower_bound : forall t0 c lat late dmin,
+  (forall d, In d (timeouts c) -> (dmin <= d)%Z) ->
+  (forall e, attempt t0 c lat late = Some e ->
+     (t0 + dmin <= e)%Z /\ exists D, earliest (snd (enter t0 c lat [])) = Some D /\ (D <= e)%Z /\ (t0 + dmin <= D)%Z)
+  /\ (timeouts c <> [] -> exists e, attempt t0 c lat late = Some e).
+Proof. exact deadline_lower_bound. Qed.
+(** under Retry every blocking attempt takes at least dmin of its own: the observed times pass the
+    predicate the check evaluates, and n of them take at least n * dmin *)
+Theorem C19_deadline_attempts : forall dmin c, (forall d, In d (timeouts c) -> (dmin <= d)%Z) ->
+  forall n t0 lats lates waits, block_ok t0 dmin 0 (attempts n t0 c lats lates waits) = true.
+Proof. exact attempts_block_ok. Qed.
+Theorem C19_deadline_attempts_meaning : forall dmin slack, (0 <= slack)%Z -> forall dones prev,
+  block_ok prev dmin slack dones = true ->
+  (prev + Z.of_nat (length dones) * (dmin - slack) <= last dones prev)%Z.
+Proof. exact block_ok_total. Qed.
+
+(** a message that arrives with a deadline already on its context: under any chain of simple
+    middlewares the handler sees the earlier of that deadline and the chain's Timeouts (never a
+    later one), and after the call the message has exactly the deadline it came with *)
+Theorem C19_arriving_deadline : forall mws s w, forallb is_simple mws = true ->
+  let seen := view (entry_msg mws (w_msg w)) in
+  w_trace (fst (stack repaired mws (scripted s) w)) = w_trace w ++ [ECall (w_calls w) seen]
+  /\ v_deadline seen = dl_min (m_base_dl (w_msg w)) (min_deadline (push_layers mws (m_ctx (w_msg w))))
+  /\ (forall b, m_base_dl (w_msg w) = Some b -> exists d, v_deadline seen = Some d /\ (d <= b)%Z)
+  /\ m_base_dl (w_msg (fst (stack repaired mws (scripted s) w))) = m_base_dl (w_msg w)
+  /\ v_deadline (view (w_msg (fst (stack repaired mws (scripted s) w)))) = v_deadline (view (w_msg w)).
+Proof. exact arriving_deadline. Qed.
+
 Print Assumptions C19_timeout_transparent.
+Print Assumptions C19_arriving_deadline.
+Print Assumptions C19_deadline_lower_bound.
+Print Assumptions C19_deadline_attempts.
+Print Assumptions C19_deadline_attempts_meaning.
+Print Assumptions C19_composes_with_retry_middle.
+Print Assumptions C19_composes_with_retry_middle_same_handler.
+Print Assumptions C19_model_accepted.
 Print Assumptions C19_timeout_deadline_visible.
 Print Assumptions C19_correlation_transparent.
 Print Assumptions C19_correlation_never_overwrites.
@@ -237,7 +302,7 @@ Print Assumptions C19_composes_with_retry_refuted.
 Example C19_witness :
   let '(w, r) := stack repaired [MRetry 3; MTimeout 5; MDelay (DCfg 100 1000 3 2)]
                    (scripted [Call [] (Fail [] (EBase 7)); Call [] (Fail [] (EBase 7)); Call [] (Ret [OSelf])])
-                   (init_world (MSt [] [] false Unsettled)) in
+                   (init_world (MSt [] [] false Unsettled None)) in
   w_calls w = 3%nat /\ r = Ret [OSelf] /\ m_ctx (w_msg w) = []
   /\ mget K_DFOR (m_meta (w_msg w)) = MDur 150
   /\ map (fun e => match e with ECall _ v => (v_done v, v_deadline v) | _ => (true, None) end) (w_trace w)
